@@ -63,6 +63,29 @@ fn check_seq(c: &SeqCase, obs: &mut Obs) -> Verdict {
         Verdict::Pass => {}
         v => return v,
     }
+    // consumers that group the list (the unified-diff header takes its extents from the first and last
+    // op of a group): grouping keeps true coordinates too - every Equal op of a group is a piece of an
+    // Equal op of the list, on the same diagonal, and every other op is an op of the list
+    for n in [1usize, 3] {
+        let groups = match guard(|| similar::group_diff_ops(ops.clone(), n)) {
+            Ok(g) => g,
+            Err(p) => return Verdict::Fail(format!("group_diff_ops: {}", p)),
+        };
+        for g in &groups {
+            for op in g {
+                let ok = match *op {
+                    DiffOp::Equal { old_index, new_index, len } => ops.iter().any(|o| match *o {
+                        DiffOp::Equal { old_index: oo, new_index: nn, len: ll } => oo <= old_index && old_index + len <= oo + ll && nn <= new_index && old_index - oo == new_index - nn,
+                        _ => false,
+                    }),
+                    _ => ops.contains(op),
+                };
+                if !ok {
+                    return Verdict::Fail(format!("{} mode {}: group_diff_ops(ops, {}) holds {:?}, which is neither an op of the list nor a piece of one of its Equal ops (list {:?}, windows {:?} / {:?})", alg_name(c.alg), c.mode, n, op, ops, c.old_r(), c.new_r()));
+                }
+            }
+        }
+    }
     // the same for captures made under a deadline that runs out (before the start / at a later probe):
     // what the deadline fallbacks report goes through the same clean-up and carries exact positions too
     for k in [0u64, 1 + ((c.old.len() + c.new.len()) % 3) as u64] {
@@ -249,7 +272,7 @@ impl Prop for C11 {
     type Case = Case;
     const ID: &'static str = "C11";
     fn rule() -> String {
-        "cases = Seq(algorithm, old, new, ranges, capture entry point): the capture without deadline and the captures made under a (virtual) deadline that runs out at probe 0 and at probe 1..3 | Lines(old, new, algorithm, radius): exact positions of TextDiff::ops and the consumer view (hunk headers); enumeration of all pairs over {0,1} plus proptest mixture biased to repeats next to edits. Oracle: both indices of every op == range start + items consumed before it on that side; hunk headers computed by the library from first/last op == headers computed from the true extents. A carried-index / header mismatch that disappears when the cfg(similar_verif) swap repair is on is counted as known finding D7 and the search continues; any other mismatch is a violation. Non-trivial = op list contains a pure Delete or Insert (Seq) / at least 2 ops (Lines); distinct = distinct serialized case.".into()
+        "cases = Seq(algorithm, old, new, ranges, capture entry point): the capture without deadline and the captures made under a (virtual) deadline that runs out at probe 0 and at probe 1..3 | Lines(old, new, algorithm, radius): exact positions of TextDiff::ops and the consumer view (hunk headers); enumeration of all pairs over {0,1} plus proptest mixture biased to repeats next to edits. Oracle: both indices of every op == range start + items consumed before it on that side; group_diff_ops over the captured list (radius 1 and 3, also for sub-range windows) only holds ops of the list and pieces of its Equal ops on the same diagonal; hunk headers computed by the library from first/last op == headers computed from the true extents. A carried-index / header mismatch that disappears when the cfg(similar_verif) swap repair is on is counted as known finding D7 and the search continues; any other mismatch is a violation. Non-trivial = op list contains a pure Delete or Insert (Seq) / at least 2 ops (Lines); distinct = distinct serialized case.".into()
     }
     fn assumptions() -> Vec<String> {
         vec![
